@@ -304,14 +304,23 @@ func (m *machine) scriptFork(t *tip, f uint64) *tip {
 	return nt
 }
 
-// reportWitness applies the known-finding protocol to a witness outcome.
-func reportWitness(t *testing.T, sig string, fail *failure, story string) {
+// reportWitness applies the known-finding protocol to a witness outcome. The
+// finding is only recognised if the failure is the expected one (signature of
+// the oracle and a fragment of its detail); any other failure of the witness
+// history is reported as a violation of its own.
+func reportWitness(t *testing.T, sig string, fail *failure, story, expectSig, expectDetail string) {
 	if fail == nil {
 		t.Logf("witness %s: the history no longer fails", sig)
 		recC15.Label("witness-holds:" + sig)
 		return
 	}
 	detail := fail.sig + " :: " + fail.detail + "\nwitness: " + story
+	if fail.sig != expectSig || !strings.Contains(fail.detail, expectDetail) {
+		other := "witness-of-" + sig + "-fails-differently:" + fail.sig
+		recC15.Violation(other, detail, recC15.SaveReplay(t.Name(), "witness-"+sig+"-other", map[string]any{"signature": other, "history": story}))
+		t.Errorf("VERIF-FAIL signature=%s :: %s", other, detail)
+		return
+	}
 	if isKnown("C15", sig) {
 		recC15.KnownFinding(sig)
 		t.Logf("KNOWN-FINDING %s still reproduces: %s", sig, detail)
@@ -353,7 +362,7 @@ func TestC15_WitnessTxErrorIgnored(t *testing.T) {
 			fail = first.fail
 			story += fmt.Sprintf("; fault %s (database round trip inside the first range's transaction); Sync returned %v", first.f, first.syncErr)
 		}
-		reportWitness(t, sigTxErrIgnored, fail, story)
+		reportWitness(t, sigTxErrIgnored, fail, story, k.name+":"+k.exact[0].name+":missing", "block_number=1 ")
 		m.close()
 	}
 }
@@ -390,7 +399,7 @@ func TestC15_WitnessRollbackBelowSyncStart(t *testing.T) {
 			fail = m.doSync(m.chain.Head(), faultSpec{})
 		}
 		story := fmt.Sprintf("%s syncer, SyncStartBlockNumber 20; block 15 carries one admissible event; Sync(header 22); block 22 is replaced by a sibling (fork depth 1), Sync(header 23) rolls back to block 12 and refetches 13..23", k.name)
-		reportWitness(t, sigBelowSyncStart, fail, story)
+		reportWitness(t, sigBelowSyncStart, fail, story, k.name+":"+k.exact[0].name+":extra", "EXTRA(1): block_hash=x"+fmt.Sprintf("%x", m.chain.Canonical(15).Hash().Bytes())+" block_number=15 ")
 		m.close()
 	}
 }
@@ -420,5 +429,49 @@ func TestC15_WitnessReRegisteredTriggerLost(t *testing.T) {
 		m.chain.SetHead(nt.blk)
 		fail = m.doSync(m.chain.Head(), faultSpec{})
 	}
-	reportWitness(t, sigReRegLost, fail, "multi-event syncer, SyncStartBlockNumber 0; trigger K registered in block 2 and again in block 20; Sync(header 20); block 20 is replaced by an empty sibling, Sync(header 21) rolls back to block 10 deleting K's row (block_number 20); the canonical chain still registers K in block 2")
+	reportWitness(t, sigReRegLost, fail, "multi-event syncer, SyncStartBlockNumber 0; trigger K registered in block 2 and again in block 20; Sync(header 20); block 20 is replaced by an empty sibling, Sync(header 21) rolls back to block 10 deleting K's row (block_number 20); the canonical chain still registers K in block 2",
+		"multi:event_trigger_registered_event:missing", "MISSING(1): block_hash=x"+fmt.Sprintf("%x", m.chain.Canonical(2).Hash().Bytes())+" block_number=2 ")
+}
+
+// Witness: after a fork the Sync for head position+1 fails before the
+// rollback is committed; the keyper moves on to position+2 and the reorg is
+// never noticed (rows of the abandoned block stay, the position is canonical).
+func TestC15_WitnessReorgMissedAfterFailedSync(t *testing.T) {
+	recC15.AddRule("witness histories of the candidate findings (deterministic, replayed against the real code)")
+	d := svc.EventTriggerDefinition{Contract: smallAddr(1)}
+	defs := []trigDef{{d, d.MarshalBytes()}}
+	for _, k := range []*kindSpec{kindRegistry, kindSequencer, kindMulti} {
+		m := newScriptedMachine(k, 0, svc.DefaultMaxRequestBlockRange, defs)
+		tp := m.tips[0]
+		m.scriptEmpty(tp, 2)
+		m.scriptBlock(tp, func(st *branchState, num, tm uint64) []scriptLog { // block 3, to be abandoned
+			switch k {
+			case kindRegistry:
+				s, e := mkRegistryEvent(st, 0, 1, tm+10)
+				return []scriptLog{{s, e}}
+			case kindSequencer:
+				s, e := mkSequencerEvent(st, 1, smallHash(0xbb, 0), smallAddr(0x20), []byte{1}, big.NewInt(21000))
+				return []scriptLog{{s, e}}
+			}
+			s, e := mkTriggerEvent(st, num, 1, smallHash(0xcc, 0), smallAddr(0x30), defs[0].bytes, true, 40)
+			return []scriptLog{{s, e}}
+		})
+		abandoned := tp.blk
+		m.chain.SetHead(tp.blk)
+		fail := m.doSync(m.chain.Head(), faultSpec{})
+		var story string
+		if fail == nil {
+			nt := m.scriptFork(tp, 2)
+			m.scriptEmpty(nt, 3) // 3', 4', 5'
+			m.chain.SetHead(nt.blk)
+			// the Sync for head 4' (position+1) fails at its first database round trip
+			fail = m.doSync(m.chain.Canonical(4), faultSpec{"dberr", 1})
+			if fail == nil {
+				fail = m.doSync(m.chain.Canonical(5), faultSpec{})
+			}
+		}
+		story = fmt.Sprintf("%s syncer, SyncStartBlockNumber 0; block 3 carries one admissible event; Sync(header 3); block 3 is replaced by an empty sibling 3' with children 4', 5'; Sync(header 4') fails at its first database round trip (before the rollback); Sync(header 5') succeeds: position (5, hash of 5') is canonical, the row of the abandoned block 3 is still stored", k.name)
+		reportWitness(t, sigReorgMissed, fail, story, k.name+":"+k.exact[0].name+":extra", "EXTRA(1): block_hash=x"+fmt.Sprintf("%x", abandoned.Hash().Bytes())+" block_number=3 ")
+		m.close()
+	}
 }
